@@ -14,20 +14,28 @@ MANIFEST = {
                      "operation histories and over access paths; coercion and equality lemmas over all integers / all values) "
                      "+ differential correspondence model vs real Variant.hpp (values and every block's reference count) vs an "
                      "independent value-semantics reference",
-        "text": "Theorems over all histories of assignments, copies, swaps, typed assignments and mutable accesses (nested paths of any "
-                "depth) of the Lean models of Variant: the variables always hold exactly the values of a plain store of values (so no "
-                "operation on one variable changes another), type/value are the last assigned ones, the coercion tables hold for every "
-                "integer of every width, printf numerals read back through atoi/strtoul/atoll/strtoull, v == copy(v) for every NaN-free "
-                "value; for the deep model additionally: reference count = handles in variables + handles stored in payloads, clear() "
-                "terminates and frees exactly the unreferenced blocks, a nested mutable walk clones at every shared level.  The deep "
-                "model is tied to the current Variant.hpp/Array.hpp/List.hpp/HashMap.hpp/String.cpp on every run: identical op lines are "
+        "text": "Headline theorems deep_refines / deep_driver_refines: for all histories of all operations (assignments, copies, "
+                "swaps, typed assignments incl. temporaries, mutable accesses through nested paths of any depth) the heap model the "
+                "driver runs — element Variants are cells, copies share blocks lazily at every level, clear() cascades — never "
+                "faults and its six variables read exactly as a plain store of values (so no operation on one variable changes "
+                "another); reference count = handles in variables + handles stored in payloads; clear() terminates and frees exactly "
+                "the unreferenced blocks; the driver's read-out fuel suffices.  Further: type/value are the last assigned ones, the "
+                "integer/bool/null coercion tables hold for every integer of every width, printf numerals read back through the "
+                "modelled atoi/strtoul/atoll/strtoull, v == copy(v) for every NaN-free value; a second, variable-level model "
+                "(`refines`, `independent`) covers the share/clone decisions at the variables.  The deep model is tied to the current "
+                "Variant.hpp/Array.hpp/List.hpp/HashMap.hpp/String.cpp on every run: identical op lines are "
                 "executed by a harness built from the sources (ASan/UBSan/LSan) and by the compiled model; getType, every to* "
                 "conversion, the full nested value, the reference count of every heap block (data->ref, white box) and the == matrix of "
                 "all six variables are compared after every op, and the values against a Python store of deep-copied values.",
         "note": "Trusted: Lean kernel + the three standard axioms; hand translation of Variant.hpp into the models (validated by the "
-                "correspondence run, not proved).  Doubles are opaque in the theorems (any semantics of ==, casts, atof, printf %f); the "
-                "driver's IEEE instance (Ieee.lean) is only tested.  libc parsers atoi/strtoul/atoll/strtoull are Lean definitions of the "
-                "glibc LP64 behaviour.  `refines` is proved for the variable-level model (elements inside payloads by value) and "
+                "correspondence run, not proved).  Doubles are opaque in the theorems (any semantics of ==, casts, atof, printf %f): every "
+                "statement about the floating alternative is definitional, the double coercions are covered by the correspondence run "
+                "against Python floats only; the driver's IEEE instance (Ieee.lean) is only tested.  The string rows of the coercion "
+                "tables are relative to the area's own definitions of strtol/strtoul (the independent facts are the round-trip theorems).  "
+                "Lines refused by the model — self-append among them — are skipped on both sides in every 'for all histories' "
+                "statement.  libc parsers atoi/strtoul/atoll/strtoull are Lean definitions of the "
+                "glibc LP64 behaviour.  `refines` is proved for the variable-level model (elements inside payloads by value; below the root it reuses the "
+                "specification's nested update, so its content is the decisions at the variables) and "
                 "`deep_refines` for the deep model (what the driver runs: nested lazy sharing, destructor cascade), both for all "
                 "operations and all histories; the only hypothesis of `deep_refines` is that literals are null/scalars/strings; the driver's "
                 "read-out fuel `next + 1` is proved sufficient (`deep_read_fuel`) and the driver loop itself is covered (`deep_driver_refines`).  The deep "
